@@ -21,6 +21,10 @@ WITNESSES = [
      "local", "2.1.1.1.1.1.1.0.0.0.0", "c0+s0", ["q_0", "q_0", "sr_0", "sr_0", "as_0", "ad_0", "ad_0", "sd_0", "pr_1", "pr_0"]),
     ("sibling polls first (ipc; both answered, b received and released, then b polls again, then a)",
      "ipc", "2.1.1.1.1.1.1.0.0.0.0", "c0+s0", ["q_0", "q_0", "sr_0", "sr_0", "as_0", "as_1", "ad_0", "ad_0", "sd_0", "pr_1", "rx_0", "pr_1", "pr_0"]),
+    ("a server polls inside the client's backpressure handler while the delivery to the other server stalls: the request is received, connected (fire-and-forget off)",
+     "local", "1.1.1.1.1.2.1.0.0.0.0", "c0+s0+s1", ["q_0", "sr_0", "ad_0", "pd_0", "qh_0_0", "q_0", "sr_1", "ad_0", "pd_0", "qh_0_1"]),
+    ("the same with fire-and-forget on, other delivery role",
+     "local", "1.1.1.1.1.2.1.0.0.1.0", "c0+s0+s1", ["q_0", "sr_1", "ad_0", "pd_0", "qh_0_1", "qh_0_0"]),
     ("client loan fails with OutOfMemory inside all limits (no request overflow)",
      "local", "1.1.1.1.1.1.1.0.0.0.0", "c0+s0", ["q_0", "sr_0", "pd_0", "qd_0", "q_0", "l_0"]),
     ("server loan fails with OutOfMemory inside all limits; the failed loan gives the per-request loan counter back (fixed: 99179a3)",
@@ -183,6 +187,14 @@ def run(ctx):
     # every polling order of the two pending responses
     exh("local", "2.1.1.1.1.1.1.0.0.0.0", "c0+s0", "q_0+q_0+sr_0+sr_0+as_0+as_1", "sib", L + 1, nsh)
     exh("ipc", "2.1.2.1.2.1.1.0.1.0.0", "c0+s0", "q_0+q_0+sr_0+sr_0+as_0+as_1+as_0", "sib", LI, nsh)
+    # backpressure handler scripts: while the delivery of a request to one server stalls (request buffer 1 or 2 full, no
+    # overflow) the client's handler lets a server poll (has_requests, receive): the request already delivered to the
+    # other server must come out as a connected ActiveRequest; both delivery orders, fire-and-forget off and on
+    exh("local", "1.1.1.1.1.2.1.0.0.0.0", "c0+s0+s1", "-", "bph", L + 1 if th else L, nsh)
+    exh("local", "1.1.1.1.1.2.1.0.0.1.0", "c0+s0+s1", "-", "bph", L + 1 if th else L, nsh)
+    exh("local", "2.1.1.1.1.2.1.0.0.0.0", "c0+s0+s1", "q_0+sr_0+ad_0+pd_0", "bph", L, nsh)
+    exh("local", "2.1.1.1.1.2.1.0.0.1.0", "c0+s0+s1", "q_0+sr_1+ad_0+pd_0", "bph", L, nsh)
+    exh("ipc", "1.1.1.1.1.2.1.0.0.0.0", "c0+s0+s1", "q_0+sr_0+ad_0+pd_0", "bph", LI, nsh)
     # loans on both sides
     exh("local", "2.2.1.1.2.1.1.0.0.0.0", "c0+s0", "-", "loan", LI, nsh)
     exh("local", "1.1.1.1.1.1.1.1.0.0.0", "c0+s0", "-", "loan", LI, nsh)
@@ -258,7 +270,7 @@ def run(ctx):
                 "while its PendingResponse lives, at most max_servers recipients, a request handed out at most once per server, "
                 "no panic; the hypothesis of c11_routing_under_send_ok (extracted step_send_okb) is evaluated on every step and "
                 "must hold in every history outside the known class (no client created after a client drop). exhaustive: all operation sequences of length %d..%d (ipc: %d) over 10-14 "
-                "operation alphabets (core, loan, ports, c2, s2, reuse), limits 1..2, overflow and fire-and-forget on/off, "
+                "operation alphabets (core, loan, ports, c2, s2, reuse, hint, sib, bph = sends with a scripted client backpressure handler that lets a server poll inside the handler), limits 1..2, overflow and fire-and-forget on/off, "
                 "preallocation override 1..2 and prologues that force channel reuse; random: seeded histories up to 300 "
                 "operations over the full 39-operation alphabet (2 client slots x 2 server slots), 22%% channel-reuse patterns. "
                 "distinct = distinct (configuration, history) ignoring the service variant; non-trivial = at least one response "
